@@ -27,19 +27,20 @@ void parseTypedRecord(const DnsResourceRecord *rr, DnsResult *result, const uint
 #define MIN_OFF(e) 1
 #endif
 
-/* loop 1: questions. A question is at least 5 octets (1 name octet + QTYPE + QCLASS). */
+/* loop 1: questions. Every question consumes at least one octet (in fact >= 5; the bound with the factors 5 and 11 verifies for
+ * two loops but not for four within 900 s on any back end here, the bound with factor 1: 40 s with CaDiCaL). */
 #define IORA_LOOP_DnsMessage_parse_1 IORA_LC( \
   __CPROVER_assigns(i, offset, iora_exc, result.questions, GHOSTS) \
   __CPROVER_loop_invariant(iora_exc == EXC_NONE && i <= result.header.qdcount && result.questions.n == i) \
-  __CPROVER_loop_invariant(offset <= size && offset >= 12 && MIN_OFF(12 + 5 * (size_t)i)) \
+  __CPROVER_loop_invariant(offset <= size && offset >= 12 && MIN_OFF(12 + (size_t)i)) \
   __CPROVER_decreases(result.header.qdcount - i))
-/* loops 2-4: answer / authority / additional records. A record is at least 11 octets (1 name octet + 10 fixed octets). */
+/* loops 2-4: answer / authority / additional records; every record consumes at least one octet. */
 #define RR_LOOP(list, cnt, base_off, base_typed) IORA_LC( \
   __CPROVER_assigns(i, offset, iora_exc, iora_exc_caught, result.list, TYPED_ASSIGN, GHOSTS) \
   __CPROVER_loop_invariant(iora_exc == EXC_NONE && i <= (cnt) && result.list.n == i) \
-  __CPROVER_loop_invariant(offset <= size && offset >= 12 && MIN_OFF((base_off) + 11 * (size_t)i)) \
+  __CPROVER_loop_invariant(offset <= size && offset >= 12 && MIN_OFF((base_off) + (size_t)i)) \
   __CPROVER_loop_invariant(TYPED_LE((base_typed) + (size_t)i)) \
   __CPROVER_decreases((cnt) - i))
-#define IORA_LOOP_DnsMessage_parse_2 RR_LOOP(answers, result.header.ancount, 12 + 5 * P_QD, 0)
-#define IORA_LOOP_DnsMessage_parse_3 RR_LOOP(authority, result.header.nscount, 12 + 5 * P_QD + 11 * P_AN, P_AN)
-#define IORA_LOOP_DnsMessage_parse_4 RR_LOOP(additional, result.header.arcount, 12 + 5 * P_QD + 11 * (P_AN + P_NS), P_AN + P_NS)
+#define IORA_LOOP_DnsMessage_parse_2 RR_LOOP(answers, result.header.ancount, 12 + P_QD, 0)
+#define IORA_LOOP_DnsMessage_parse_3 RR_LOOP(authority, result.header.nscount, 12 + P_QD + P_AN, P_AN)
+#define IORA_LOOP_DnsMessage_parse_4 RR_LOOP(additional, result.header.arcount, 12 + P_QD + P_AN + P_NS, P_AN + P_NS)
